@@ -210,6 +210,13 @@ class _ImmutableDeclaration(Declaration):
             _ImmutableDeclaration.__instance = object.__new__(cls)
         return _ImmutableDeclaration.__instance
 
+    def __init__(self):
+        # We are a singleton (see ``__new__``) and calling the class again
+        # (as the callable returned by ``weakref()`` does) must not reset
+        # the resolution order computed for us after the first call.
+        if not hasattr(self, '_bases'):
+            super().__init__()
+
     def __reduce__(self):
         return "_empty"
 
